@@ -177,6 +177,22 @@ func checkRegisterFlow(w *load.World, c *core.Collector, f *asmFunc, cnt string,
 		switch {
 		case in.op == "VXORPS" && len(in.args) == 3 && in.args[0] == in.args[1] && in.args[1] == in.args[2]:
 			setKind(last, rkZero)
+		case (in.op == "VMOVSHDUP" || in.op == "VMOVSLDUP" || in.op == "VMOVHLPS" || in.op == "VMOVLHPS") && len(in.args) >= 2:
+			// a shuffle of register lanes: what comes out is of the kind that went in (a shuffled
+			// partial sum is a partial sum; the lane bookkeeping is the horizontal-sum clause's)
+			k := rkZero
+			for _, a := range in.args[:len(in.args)-1] {
+				if r, ok := vreg(a); ok {
+					k = joinKind(k, s.regs[r])
+					if s.regs[r] == rkAccWide {
+						k = rkAcc
+					}
+				}
+			}
+			if k == rkZero {
+				k = rkAcc
+			}
+			setKind(last, k)
 		case strings.HasPrefix(in.op, "VMOV") || in.op == "MOVSS" || in.op == "MOVUPS":
 			if _, isReg := vreg(last); isReg {
 				setKind(last, rkData)
